@@ -226,3 +226,34 @@ pub fn thread_tally_take() -> Option<TallySnapshot> {
     info.clear();
     Some(snap)
 }
+
+/// `BenchOptions::overwrite`, with every field of the result spelled out:
+/// `sc ss th ig maxt mint sk bytes chars cycles items` (`-` = unset).
+pub fn overwrite_dump(
+    this: &crate::benchmark::BenchOptions<'_>,
+    other: &crate::benchmark::BenchOptions<'_>,
+) -> String {
+    let r = this.overwrite(other);
+    fn o<T: ToString>(v: Option<T>) -> String {
+        v.map(|v| v.to_string()).unwrap_or_else(|| "-".into())
+    }
+    let th = r.threads.as_deref().map(|t| {
+        let v: Vec<String> = t.iter().map(|n| n.to_string()).collect();
+        format!("[{}]", v.join(":"))
+    });
+    let c = |k: KnownCounterKind| o(r.counters.get(k).map(|v| v as u64));
+    [
+        o(r.sample_count),
+        o(r.sample_size),
+        o(th),
+        o(r.ignore.map(|b| b as u8)),
+        o(r.max_time.map(|d| d.as_nanos())),
+        o(r.min_time.map(|d| d.as_nanos())),
+        o(r.skip_ext_time.map(|b| b as u8)),
+        c(KnownCounterKind::Bytes),
+        c(KnownCounterKind::Chars),
+        c(KnownCounterKind::Cycles),
+        c(KnownCounterKind::Items),
+    ]
+    .join(" ")
+}
